@@ -501,12 +501,28 @@ func atLeastZero(c *Ctx, v ssa.Value, b *ssa.BasicBlock) bool {
 		return true
 	}
 	// strings.Index* returns >= -1; with a dominating `!= -1` (or `== -1` leaving) it is >= 0
-	if call, ok := v.(*ssa.Call); ok {
-		if callee := call.Call.StaticCallee(); callee != nil && calleePkgPath(callee) == "strings" && strings.Contains(callee.Name(), "Index") {
-			return guardedCmp(v, b, func(op token.Token, k int64) bool {
-				return (op == token.NEQ && k == -1) || (op == token.GTR && k >= -1) || (op == token.GEQ && k >= 0)
-			})
+	isIndexCall := func(x ssa.Value) bool {
+		call, ok := x.(*ssa.Call)
+		if !ok {
+			return false
 		}
+		callee := call.Call.StaticCallee()
+		return callee != nil && calleePkgPath(callee) == "strings" && strings.Contains(callee.Name(), "Index")
+	}
+	// the value itself, or a phi all of whose edges are such calls (for pos := Index(…); pos != -1; pos = Index(…))
+	idx := isIndexCall(v)
+	if phi, ok := v.(*ssa.Phi); ok && len(phi.Edges) > 0 {
+		idx = true
+		for _, e := range phi.Edges {
+			if !isIndexCall(e) {
+				idx = false
+			}
+		}
+	}
+	if idx {
+		return guardedCmp(v, b, func(op token.Token, k int64) bool {
+			return (op == token.NEQ && k == -1) || (op == token.GTR && k >= -1) || (op == token.GEQ && k >= 0)
+		})
 	}
 	return false
 }
@@ -1074,6 +1090,18 @@ func evalPredicateOnConst(f *ssa.Function, arg int64, bound map[*ssa.FreeVar]int
 				b, ok := boolOf(v.X, from, cur)
 				return !b, ok
 			}
+		case *ssa.Call:
+			// another predicate of the same shape applied to a known value: isDigit(r) inside
+			// isNonZeroDigit(r)
+			g := v.Call.StaticCallee()
+			if g == nil || len(g.Blocks) == 0 || len(v.Call.Args) != 1 || len(g.FreeVars) != 0 || g == f {
+				return false, false
+			}
+			a, okA := val(v.Call.Args[0])
+			if !okA {
+				return false, false
+			}
+			return evalPredicateOnConst(g, a, nil)
 		}
 		return false, false
 	}
